@@ -1,10 +1,10 @@
 SPECIFICATION Spec
 CONSTANTS
   Titles = {"absent", "short"}
-  Years = {"absent", "text2008", "bin2008", "textempty", "textabc", "bin3", "bin0", "textutf", "textbad", "bin1", "bin5", "textmax", "textover", "text65536", "text007", "binmax", "bindigits"}
+  Years = {"absent", "text2008", "bin2008", "textempty", "textabc", "bin3", "bin0", "textutf", "textbad", "bin1", "bin5", "textmax", "textover", "text65536", "text007", "binmax", "bindigits", "int0", "int4"}
   Posters = {"absent", "big"}
   Summaries = {"absent", "utf8"}
-  Unknowns = {"none", "between", "tiny", "named"}
+  Unknowns = {"none", "between", "tiny", "named", "kids"}
   Shapes = {"mdir", "mdirqt", "mdta", "zero", "noilst", "noilstqt", "nometa", "noudta"}
   Hdrs = {"small", "data", "item", "all"}
   MMetas = {"none", "mdtaBefore", "mdirAfter", "mdirBefore"}
